@@ -1187,19 +1187,27 @@ def assume(b):
 
 
 TOL = 1e-6
+def _pl(x):
+    """NumPy scalars / 0-d arrays as plain Python values (their comparison operators do not defer to SV)"""
+    if isinstance(x, _np.generic): return x.item()
+    if isinstance(x, _np.ndarray) and x.ndim == 0: return x[()]
+    return x
 def eq(a, b, scale=None):
     """obligation-level equality: exact in symbolic mode, tolerant in concrete replay mode"""
+    a = _pl(a); b = _pl(b)
     if is_sym(a) or is_sym(b):
         return a == b
     a = float(a); b = float(b)
     s = scale if scale is not None else max(1.0, abs(a), abs(b))
     return abs(a - b) <= TOL * s
 def le(a, b, scale=None):
+    a = _pl(a); b = _pl(b)
     if is_sym(a) or is_sym(b):
         return a <= b
     s = scale if scale is not None else max(1.0, abs(a), abs(b))
     return float(a) <= float(b) + TOL * s
 def lt(a, b, scale=None):
+    a = _pl(a); b = _pl(b)
     if is_sym(a) or is_sym(b):
         return a < b
     s = scale if scale is not None else max(1.0, abs(a), abs(b))
@@ -1207,6 +1215,7 @@ def lt(a, b, scale=None):
 def close(a, b, tol=1e-9, scale=1.0):
     """|a-b| <= tol*scale in symbolic mode (for obligations that pass through a numeric threshold
     or a float constant such as cos(90 deg) = 6e-17); tolerant float comparison in replay"""
+    a = _pl(a); b = _pl(b)
     if is_sym(a) or is_sym(b):
         return band(a - b <= tol * scale, b - a <= tol * scale)
     return abs(float(a) - float(b)) <= tol * scale + 1e-9 * max(abs(float(a)), abs(float(b)), 1.0)
